@@ -295,6 +295,27 @@ impl C16 {
             Ok(Ok(v)) => ctx.violation(format!("accepted-ill-formed:{}:{shape}", type_name(ty)), json!({"type": type_name(ty), "json": bad, "accepted_as": format!("{v:?}")})),
             Err(p) => ctx.violation(format!("coercion-{}", p.signature()), json!({"type": type_name(ty), "json": bad, "panic": p.message})),
         }
+        // an integer beyond 64 bits written as a JSON *number*: the JSON parser holds it as a float, already
+        // rounded - it must be refused, or come back exact, never come back as a neighbouring value
+        if matches!(ty, Type::Int) {
+            let v = {
+                let base: i128 = *rng.pick(&[1i128 << 64, (1 << 64) + 1, (1 << 70) + 12345, i128::MAX / 3, -(1i128 << 64) - 1, -(1i128 << 90) - 7, (1 << 100) + 1]);
+                base + rng.below(1000) as i128
+            };
+            if let Ok(j) = serde_json::from_str::<Value>(&v.to_string()) {
+                ctx.eval();
+                ctx.count("encoding/Int:json-number-beyond-64-bits");
+                match crate::panics::catch(|| from_json(j.clone(), ty)) {
+                    Ok(Ok(got)) => {
+                        if !arg_eq(&got, &ArgValue::Int(v)) {
+                            ctx.violation("coercion:Int:json-number-beyond-64-bits", json!({"json_text": v.to_string(), "accepted_as": format!("{got:?}")}));
+                        }
+                    }
+                    Ok(Err(_)) => ctx.count("encoding/Int:json-number-beyond-64-bits:refused"),
+                    Err(p) => ctx.violation(format!("coercion-{}", p.signature()), json!({"json_text": v.to_string(), "panic": p.message})),
+                }
+            }
+        }
         // byte envelopes straight from the network: decoding is Ok or Err
         let env_doc = match rng.below(5) {
             0 => json!({"content": "abc", "contentType": "hex"}),
@@ -384,6 +405,20 @@ impl C16 {
                 }
                 ctx.count(&format!("requests/ill-formed-value-via-{via}"));
                 poisoned = Some((name, via, format!("{}:{shape}", type_name(&ty))));
+            }
+        }
+        // undeclared extras that differ from a declared, supplied name in letter case only, placed in the other
+        // map: they name nothing, so the declared entry must still arrive
+        if !expected.is_empty() && rng.chance(1, 4) {
+            let (name, _) = expected[rng.usize(expected.len())].clone();
+            let variant = if rng.bool() { name.to_uppercase() } else { let mut c = name.chars(); c.next().map(|f| f.to_uppercase().collect::<String>() + c.as_str()).unwrap_or_default() };
+            if variant != name && !declared.iter().any(|(d, _)| *d == variant) {
+                if env.contains_key(&name) {
+                    args.insert(variant, random_json(rng, 2));
+                } else {
+                    env.insert(variant, random_json(rng, 2));
+                }
+                ctx.count("requests/case-variant-decoy-in-the-other-map");
             }
         }
         // undeclared extras
@@ -531,7 +566,7 @@ impl Property for C16 {
         }
     }
     fn required_features(&self, _tier: Tier) -> Vec<String> {
-        ["encoding/Int:0x-16-bytes-be", "encoding/Int:json-number", "encoding/Bytes:envelope-base64", "encoding/Address:bech32", "encoding/UtxoRef:txid#index", "requests/ok", "requests/err", "requests/param-via-env", "requests/undeclared-extra", "requests/corrupted-envelope", "requests/ill-formed-value-via-env", "requests/ill-formed-value-via-args", "requests/metamorphic-padded", "requests/metamorphic-key-in-both-maps"]
+        ["encoding/Int:0x-16-bytes-be", "encoding/Int:json-number", "encoding/Bytes:envelope-base64", "encoding/Address:bech32", "encoding/UtxoRef:txid#index", "requests/ok", "requests/err", "requests/param-via-env", "requests/undeclared-extra", "requests/corrupted-envelope", "requests/ill-formed-value-via-env", "requests/ill-formed-value-via-args", "requests/metamorphic-padded", "requests/metamorphic-key-in-both-maps", "requests/case-variant-decoy-in-the-other-map", "encoding/Int:json-number-beyond-64-bits"]
             .iter()
             .map(|s| s.to_string())
             .collect()
